@@ -175,12 +175,17 @@ def run(ctx):
         ctx.ob(R4, f.qual, f"`{astq.text(c)}`", ok, "" if ok else "a second door into the queue bypasses the clean-or-closed discipline", node=c)
     callers = [(f, c) for f, c in astq.func_callers(m, "_put_conn") if "emscripten" not in f.module]
     ctx.sites(R4, len(callers), 2, "_put_conn call sites")
+    from ..rows import helper_closure as _hc4
+    # urlopen itself, or a private helper of the pool that only urlopen's own closure reaches (the exchange step moved into a method)
+    uo_ = m.method(POOL, "urlopen")
+    uo_closure = {q_ for q_ in _hc4(m, [uo_], stop=("_put_conn", "_get_conn", "_new_conn", "_make_request")) if q_ in m.funcs and m.funcs[q_].cls is not None and m.issub(m.funcs[q_].clsq, POOL)}
     for f, c in callers:
-        ok = (f.qual == f"{POOL}.urlopen" and astq.call_text(c) == "self._put_conn") or (f.qual == f"{RS}.HTTPResponse.release_conn")
-        if f.qual == f"{POOL}.urlopen":
+        in_urlopen = f.qual == f"{POOL}.urlopen" or (f.qual in uo_closure and f.name.startswith("_") and not f.name.startswith("__"))
+        ok = (in_urlopen and astq.call_text(c) == "self._put_conn") or (f.qual == f"{RS}.HTTPResponse.release_conn")
+        if in_urlopen:
             # must be in the finally of the try that made the request
             t = astq.enclosing(c, ast.Try)
-            ok = ok and t is not None and astq.in_body_of(c, t, "finalbody")
+            ok = ok and t is not None and astq.in_body_of(c, t, "finalbody") and any(astq.call_text(c2) == "self._make_request" for s2 in t.body for c2 in astq.calls(s2))
         ctx.ob(R4, f.qual, f"`{astq.text(c)}`", ok, "" if ok else "unexpected caller of _put_conn", node=c)
     # internal hand-backs: every path of a body read (error catcher inlined, release_conn inlined) that gives the connection back
     # has the stdlib response closed / nothing left, or closed the connection first
